@@ -1,3 +1,4 @@
+import XdsVerif.Proofs.Reg
 import XdsVerif.Model.Handlers
 import XdsVerif.Generated.Facts
 /-!
@@ -77,5 +78,21 @@ theorem late_registration (port : Nat) (u : Option Chains) :
 example : limitOf 8080 (some [(0, some 5), (8080, some 100), (9090, none)]) = some 100 := by decide
 example : limitOf 7070 (some [(0, some 5), (8080, some 100)]) = some 5 := by decide
 example : limitOf 8080 (some [(8080, some 0)]) = none := by decide
+
+/-! ## A handler created while updates arrive (`Model/Reg.lean`) -/
+
+theorem facts_registration : Generated.regShape = .atomic := by decide
+
+/-- **a rate limit handler created at any moment tracks the latest state**: over every interleaving of accepted updates and
+registrations (any number of handlers — one per client suite), every registered handler has completed for exactly the
+content the cache holds; in particular a handler registered between two updates has seen the second one -/
+theorem created_anytime_tracks_latest (ops : List Reg.Op) (s : Reg.S) (h : Reg.run Generated.regShape Reg.init ops = some s)
+    (k v : Nat) (hk : k ∈ s.handlers) (hv : s.cache = some v) : s.applied k = some v := by
+  rw [facts_registration] at h
+  obtain ⟨hP, hp⟩ := Reg.policy_before_data_all ops s h
+  exact hP k hk (by simp [hp k]) v hv
+
+example : (Reg.run Generated.regShape Reg.init [.update 1, .regBegin 7, .update 2, .regBegin 8]).map
+    (fun s => (s.cache, s.handlers, s.applied 7, s.applied 8)) = some (some 2, [7, 8], some 2, some 2) := by decide
 
 end XdsVerif.Properties.C18
